@@ -1,7 +1,7 @@
 """C03 — content stays on its page and every page makes progress."""
 from fractions import Fraction
 
-from harness import docs, pm, pm_corr, pm_foot_corr, pm_oof_corr, pm_stage2, wide_trace
+from harness import docs, pm, pm_col_corr, pm_corr, pm_foot_corr, pm_oof_corr, pm_stage2, wide_trace
 from vlib import sx
 from vlib.framework import PropCheck
 
@@ -91,7 +91,7 @@ class C03(PropCheck):
     extractors = ()
     modules = ('WpModel.Props.C03', 'WpModel.Props.C03Geo', 'WpModel.Props.C03Trace', 'WpModel.Witness.C03',
                'WpModel.Props.C03Pm2', 'WpModel.Witness.C03Pm2', 'WpModel.Props.C03Oof', 'WpModel.Props.C03Foot',
-               'WpModel.Props.C03FootGeo')
+               'WpModel.Props.C03FootGeo', 'WpModel.Props.C03Col', 'WpModel.Props.C03GeoCol')
     trusted_base = (
         'modelled, not verified: the block/line pagination functions of block.py and page.py as '
         'lean/WpModel/Model/Paginate.lean (see C01)',
@@ -117,6 +117,12 @@ class C03(PropCheck):
             'every line and of the footnote area (page_bottom moves with it) compared exactly; non-trivial = at least '
             '2 pages and one footnote')
         pm_foot_corr.add_cases(run, sec_foot, run.n(100, 3000))
+        sec_col = run.section(
+            'pm-col-documents',
+            'stage 2c of the pagination model (Model/PaginateCol): multi-column containers; whole pagination with the '
+            'geometry of every column box, line and block compared exactly; non-trivial = at least 2 pages and a '
+            'container')
+        pm_col_corr.add_cases(run, sec_col, run.n(100, 3000))
         sec2 = run.section(
             'wide-geometry',
             'documents of the wide grammar: per page, the bottom edges of in-flow line boxes and table rows with a '
@@ -155,7 +161,9 @@ class C03(PropCheck):
                 'clone-negative-margin-bottom': clone_negative_margin,
                 'table-rows-after-overflowing-first-item': lambda: corpus_overflow('table_rows_after_overflow'),
                 'stale-next-page-blank-pages': lambda: stale_next_page()[0],
-                'footnote-named-page-area-overlap': pm_foot_corr.FINDING_REPLAYS['footnote-named-page-area-overlap']}
+                'footnote-named-page-area-overlap': pm_foot_corr.FINDING_REPLAYS['footnote-named-page-area-overlap'],
+                'columns-negative-margin-bottom-overflow':
+                    lambda: pm_col_corr.replay_witness('columns_negative_margin_bottom')}
 
     def judge(self, d):
         if d['section'] == 'families':
